@@ -115,7 +115,13 @@ def check(case, ctx):
     X = np.array([x[:, :, s][ii, jj] for s in range(nx)]).T
     Y = np.array([y[:, :, s][ii, jj] for s in range(ny)]).T
     t = _tstats(X, Y, paired, tail)
-    if np.any(np.abs(t - thresh) < 1e-9):
+    # statistics that are exactly 0 by rule (zero pooled variance in the unpaired test) are exact: against a threshold of exactly 0 they
+    # do not "exceed" it; every other near-coincidence of statistic and threshold is a matter of round-off and not judged
+    exact0 = np.zeros(len(t), dtype=bool)
+    if not paired:
+        v = ((X.shape[1] - 1) * X.var(axis=1, ddof=1) + (Y.shape[1] - 1) * Y.var(axis=1, ddof=1))
+        exact0 = (v == 0)
+    if np.any((np.abs(t - thresh) < 1e-9) & ~exact0):
         ctx.notes["skipped:statistic-within-1e-9-of-threshold"] += 1
         return fails
     if paired and np.any(np.isinf(t)):
@@ -341,11 +347,11 @@ def cases(draw, rich=False):
         return {"x": x, "y": y, "thresh": draw(st.sampled_from([1.0, 1.5, 2.0])), "tail": draw(st.sampled_from(["both", "both", "left", "right"])),
                 "paired": paired, "k": draw(st.integers(15, 30)), "seed": draw(gen.seeds()), "perm_x": perm_x, "perm_y": perm_y,
                 "order": draw(st.sampled_from(gen.ORDERS)), "unit": unit, "dtype": dtype}
-    return {"x": x, "y": y, "thresh": draw(st.sampled_from([1.0, 0.5, 2.0, 3.0, -1.0, 1.0, -0.5])), "tail": draw(st.sampled_from(["left", "both", "right"])),
+    return {"x": x, "y": y, "thresh": draw(st.sampled_from([1.0, 0.5, 2.0, 3.0, -1.0, 0.0, 1.0, -0.5])), "tail": draw(st.sampled_from(["left", "both", "right"])),
             "paired": paired, "k": draw(st.integers(2, 20)), "seed": draw(gen.seeds()), "perm_x": perm_x, "perm_y": perm_y,
             "order": draw(st.sampled_from(gen.ORDERS)), "unit": unit, "dtype": dtype}
 
 
 def units(tier):
-    return [Unit("nbs_bct", check, strategy=cases, examples=(600, 24000), shards=(8, 16)),
-            Unit("nbs_bct-null-rich", check, strategy=lambda: cases(rich=True), examples=(400, 15000), shards=(8, 16))]
+    return [Unit("nbs_bct", check, strategy=cases, examples=(1600, 24000), shards=(16, 16)),
+            Unit("nbs_bct-null-rich", check, strategy=lambda: cases(rich=True), examples=(800, 15000), shards=(16, 16))]
